@@ -94,18 +94,27 @@ def worker(job):
   except F.Unsupported as e:
     out.update(verdict='unsupported', detail=str(e))
     return out
-  budget = 1500 if tier == 'quick' else 14000
+  budget = int(os.environ.get('VF_BMC_BUDGET', 1500 if tier == 'quick' else 2400))      # wall seconds per scenario
+  plog = os.path.join(common.VERIF, '.work', 'logs', 'bmc_progress'); os.makedirs(plog, exist_ok=True)
+  pfile = os.path.join(plog, f"{str(sc.get('pred', 'c04')).split(':')[0]}-{tier}-{sc['name']}.txt")
+  def progress(depth, secs):
+    with open(pfile, 'a') as f: f.write(f'depth {depth} decided after {secs:.0f}s\n')
   try:
     bad_final, ok_py = predicates(sc, sysm)
     bad_stuck = None
     if sc.get('stuck_ok'):
       # termination is outside this scenario's claim (see the check's docstring): blocked end states only have to satisfy the safety part
       bad_stuck = lambda enc, st: z3.Not(M.c20_ok(enc, sysm, st, final=False))
-    r = B.bmc(sysm, bad_final=bad_final, depths=sc['depths'], timeout_s=budget, want_trace_of_ok=True, bad_stuck=bad_stuck)
+    depths = tuple(sc['depths'])
+    if tier == 'thorough' and not sc.get('hunt'):
+      # small first levels: when the time budget ends early at least these depths have been decided
+      depths = tuple(sorted(set((20, 30) + depths)))
+    r = B.bmc(sysm, bad_final=bad_final, depths=depths, timeout_s=budget, want_trace_of_ok=True, bad_stuck=bad_stuck, progress=progress)
   except B.Unsupported as e:
     out.update(verdict='unsupported', detail=str(e))
     return out
-  out.update(verdict=r.verdict, detail=r.detail, depth=r.depth, stats=r.stats, pp=r.pp_counts, racy=r.racy, states=r.states, transitions=r.transitions,
+  with open(pfile, 'a') as f: f.write(f'{r.verdict} {r.detail} depth {r.depth} after {time.time() - t0:.0f}s\n')
+  out.update(budget_exhausted=bool(getattr(r, 'budget_exhausted', False)), verdict=r.verdict, detail=r.detail, depth=r.depth, stats=r.stats, pp=r.pp_counts, racy=r.racy, states=r.states, transitions=r.transitions,
              encoded_lines=len(sysm.meta['encoded_lines']), dropped_logging_lines=len(sysm.meta['dropped_lines']), bmc_wall=round(time.time() - t0, 1))
   out['threads'] = [p.name for p in sysm.threads]
   if r.trace is not None:
@@ -199,11 +208,11 @@ def absorb(rep, results, pid):
         rep.violation(signature(res), f"{name}: {res.get('what')}", {'engine': 'pybmc', 'scenario': res['scenario'], 'trace': res.get('trace'), 'replay': res.get('replay')})
       else:
         rep.obligation(None, name, f"HARNESS-ERROR {v} trace did not reproduce on the real code: {res.get('replay')}")
-    elif v == 'bound' and (res.get('scenario') or {}).get('hunt') and res.get('depth') == max(res['scenario'].get('hunt_depths') or [0]):
+    elif v == 'bound' and res.get('depth') and (res.get('budget_exhausted') or ((res.get('scenario') or {}).get('hunt') and res.get('depth') == max(res['scenario'].get('hunt_depths') or [0]))):
       # depth-bounded scenario ("bug hunting" in CBMC's terms): every interleaving of up to `depth` macro-steps was decided, longer executions were not
       rep.obligation(True, name + f':depth<={res["depth"]}')
       cov.setdefault('depth_bounded_scenarios', []).append({'job': name, 'depth': res['depth'], 'note': 'no deadlock / bad state within this many macro-steps; the unwinding '
-                                                            'query is sat, i.e. longer executions exist and are NOT covered (the thorough tier exhausts this scenario)'})
+                                                            'query is sat, i.e. longer executions exist and are NOT covered' + ('; the per-scenario time budget ended here' if res.get('budget_exhausted') else '')})
       rep.sample({'scenario': res['scenario'], 'verdict': f'no deadlock / no bad state in any interleaving of <= {res["depth"]} macro-steps (depth-bounded, not exhaustive)',
                   'pre-emption points per thread': res['pp']})
     elif v == 'bound':
